@@ -2,7 +2,7 @@
     labels of ModuloPerformanceEventSequenceEncoderDecoder (C08).
     [np_num_steps] is the one of the code with notes/C08-fix-2.diff applied. *)
 From Coq Require Import ZArith List Bool Lia ZifyBool.
-From NS Require Import Gen.G09 Gen.G08 Model.OneHot Model.EncDec Model.NotePerfEnc Proofs.OneHot Proofs.EncDec.
+From NS Require Import Gen.G09 Gen.G08 Model.OneHot Model.EncDec Model.NotePerfEnc Proofs.OneHot Proofs.EncDec Proofs.Lookback Proofs.LookbackInput.
 Import ListNotations.
 Local Open Scope Z_scope.
 Ltac Zify.zify_post_hook ::= Z.to_euclidean_division_equations.
@@ -301,6 +301,51 @@ Section NotePerf.
   Theorem noteperf_num_steps_nil : np_num_steps c [] = Some 0.
   Proof. reflexivity. Qed.
 
+  (** events_to_input: np.hstack of six one-hot vectors, one per label component: exactly
+      input_size entries, and each block (of the size num_classes[i]) has exactly one 1,
+      at the index of the i-th label component. *)
+  Theorem noteperf_input_shape (es : list npevent) p e :
+    0 <= p -> nth_error es (Z.to_nat p) = Some e -> valid e = true ->
+    exists hs,
+      np_input c es p = Some (concat hs) /\ zlen (concat hs) = np_input_size c /\
+      hs = map (fun ic : Z * Z => onehot (snd ic) (fst ic)) (combine (np_encode_event c e) (np_classes c)) /\
+      Forall is_one_hot hs /\ Forall2 (fun h m => zlen h = m) hs (np_classes c) /\
+      Forall2 (fun h i => nth (Z.to_nat i) h 0 = 1) hs (np_encode_event c e).
+  Proof.
+    intros Hp He Hv. pose proof (noteperf_label_range e Hv) as Hr.
+    destruct cfg as (Hs & Hs1 & Hsp & Hd & Hd1 & Hdp & Hmp & Hcl).
+    unfold np_input, np_input_size. rewrite py_nth_pos, He by lia. cbn [bind].
+    rewrite Hcl in *.
+    destruct e as [[[[t0 v0] [t1 v1]] [t2 v2]] [t3 v3]]. cbn [np_encode_event fst snd] in *.
+    apply in_ranges_6 in Hr. destruct Hr as (i0 & i1 & i2 & i3 & i4 & i5 & Heq & R0 & R1 & R2 & R3 & R4 & R5).
+    inversion Heq as [[E0 E1 E2 E3 E4 E5]]. rewrite <- E0, <- E1, <- E2, <- E3, <- E4, <- E5 in *. clear Heq.
+    cbn [combine map fst snd].
+    assert (Hset : forall m i, 0 <= i < m -> py_set (zeros m) i 1 = Some (onehot m i)).
+    { intros m i Hi. unfold onehot. apply py_set_pos. rewrite zeros_length. lia. }
+    rewrite !Hset by lia. cbn [opt_all bind].
+    eexists. split; [reflexivity|]. split.
+    { cbn [concat]. rewrite !zlen_app, !onehot_length by lia. rewrite zlen_nil. cbn [zsum fold_right]. lia. }
+    split; [reflexivity|]. split.
+    { repeat constructor; apply onehot_is_one_hot; lia. }
+    split.
+    { repeat constructor; apply onehot_length; lia. }
+    { repeat constructor; unfold onehot; apply nth_upd_same; unfold zeros; rewrite repeat_length; lia. }
+  Qed.
+
+  (* default_event_label (shift 0, pitch 60, velocity 1, duration 1): an in-range label decoding to that
+     event whenever pitch 60 is inside the pitch range and there is at least one velocity bin *)
+  Theorem noteperf_default_label hist :
+    minp <= 60 <= maxp -> 1 <= nvb ->
+    in_ranges (np_default_label c) (np_classes c) /\
+    np_decode c (np_default_label c) hist = Some np_default_event.
+  Proof.
+    intros Hp Hn. assert (valid np_default_event = true) as Hv.
+    { destruct cfg as (Hs & Hs1 & Hsp & Hd & Hd1 & Hdp & _).
+      unfold valid, np_valid, np_default_event. cbn [fst snd]. rewrite !Z.eqb_refl.
+      assert (0 <= max_shift) by nia. assert (1 <= max_dur) by nia. lia. }
+    split; [now apply noteperf_label_range|now apply noteperf_decode_label].
+  Qed.
+
   Theorem noteperf_roundtrip es ins labs :
     Forall (fun e => valid e = true) es ->
     encode (np c) es = Some (ins, labs) ->
@@ -355,4 +400,63 @@ Proof.
     by (repeat split; auto; apply perf_pitch_range_ok).
   destruct (perf_dec_enc _ _ _ _ l Hc Hl) as (t & v & Hd & _ & Hv).
   exists (t, v). unfold mp_decode, mp_oh_ranges. auto.
+Qed.
+
+(** * ModuloPerformance input: count and block structure.
+    The real vector holds float cos/sin values, which are NOT modelled: [mp_input] returns the
+    layout (size, offset of the valid bit, lookup table, row, row mod 12) from which the harness
+    rebuilds the floats (correspondence only).  What is proved: the vector has input_size entries
+    = the sum of the encoder widths of the event ranges; the written cells — the valid bit plus
+    two cells per (cos, sin) pair: 5 for note events, 3 for time shifts and velocities — are
+    exactly the block of the event's own range (consecutive, disjoint blocks in range order), inside
+    the vector; the row is inside the lookup table that is indexed. *)
+Definition mp_width (r : mrange) : Z := snd r.
+Definition mp_written (t : Z) : Z := if t =? 0 then 5 else 3.
+
+Theorem modulo_input_size_count nb ms :
+  mp_input_size nb ms =
+  zsum (map mp_width K_MODULO_EVENT_RANGES) + K_MODULO_TIME_SHIFT_WIDTH +
+  (if 0 <? nb then K_MODULO_VELOCITY_WIDTH else 0).
+Proof.
+  unfold mp_input_size, mp_ranges, mp_width. destruct (0 <? nb); reflexivity.
+Qed.
+
+Theorem modulo_input_layout nb ms (es : list pevent) p e :
+  0 <= nb -> 1 <= ms -> 0 <= p -> nth_error es (Z.to_nat p) = Some e ->
+  perf_valid nb ms K_PERF_MIN_PITCH K_PERF_MAX_PITCH (fst e) (snd e) ->
+  exists off t row k mn mx,
+    mp_input nb ms es p = Some [mp_input_size nb ms; off; t; row; if t =? 0 then row mod 12 else 0] /\
+    (* the block written is the block of the event's own range ... *)
+    nth_error (mp_ranges nb ms) k = Some (fst e, mn, mx, mp_written t) /\
+    off = zsum (map mp_width (firstn k (mp_ranges nb ms))) /\ row = snd e - mn /\
+    (* ... and lies inside the vector *)
+    0 <= off /\ off + mp_written t <= mp_input_size nb ms /\
+    (* the lookup table indexed and the row inside it (144 notes / max_shift_steps / num_velocity_bins rows) *)
+    ((t = 0 /\ (fst e = EV_NOTE_ON \/ fst e = EV_NOTE_OFF) /\ 0 <= row < 144) \/
+     (t = 1 /\ fst e = EV_TIME_SHIFT /\ 0 <= row < ms) \/
+     (t = 2 /\ fst e = EV_VELOCITY /\ 0 <= row < nb)).
+Proof.
+  intros Hnb Hms Hp He Hv. destruct e as [ty v]. cbn [fst snd] in *.
+  unfold mp_input. rewrite py_nth_pos, He by lia. cbn [bind fst snd].
+  rewrite modulo_input_size_count.
+  unfold perf_valid, K_PERF_MIN_PITCH, K_PERF_MAX_PITCH in Hv.
+  unfold mp_ranges, K_MODULO_EVENT_RANGES, K_MODULO_TIME_SHIFT_WIDTH, K_MODULO_VELOCITY_WIDTH, mp_width, mp_written,
+    EV_NOTE_ON, EV_NOTE_OFF, EV_TIME_SHIFT, EV_VELOCITY in *.
+  destruct Hv as [[-> Hr]|[[-> Hr]|[[-> Hr]|[-> [Hnb0 Hr]]]]].
+  - (* NOTE_ON *)
+    destruct (0 <? nb) eqn:Hb; cbn.
+    all: destruct ((v - 0 <? 0) || (144 <=? v - 0)) eqn:Hc; [lia|].
+    all: exists 0, 0, (v - 0), 0%nat, 0, 127; cbn; repeat split; try lia; left; repeat split; try lia; now left.
+  - (* NOTE_OFF *)
+    destruct (0 <? nb) eqn:Hb; cbn.
+    all: destruct ((v - 0 <? 0) || (144 <=? v - 0)) eqn:Hc; [lia|].
+    all: exists 5, 0, (v - 0), 1%nat, 0, 127; cbn; repeat split; try lia; left; repeat split; try lia; now right.
+  - (* TIME_SHIFT *)
+    destruct (0 <? nb) eqn:Hb; cbn.
+    all: destruct ((v - 1 <? 0) || (ms <=? v - 1)) eqn:Hc; [lia|].
+    all: exists 10, 1, (v - 1), 2%nat, 1, ms; cbn; repeat split; try lia; right; left; repeat split; lia.
+  - (* VELOCITY *)
+    destruct (0 <? nb) eqn:Hb; [|lia]. cbn.
+    destruct ((v - 1 <? 0) || (nb <=? v - 1)) eqn:Hc; [lia|].
+    exists 13, 2, (v - 1), 3%nat, 1, nb; cbn; repeat split; try lia; right; right; repeat split; lia.
 Qed.
